@@ -12,6 +12,7 @@ from linear_operator.operators._linear_operator import IndexType, LinearOperator
 from linear_operator.operators.diag_linear_operator import ConstantDiagLinearOperator
 from linear_operator.operators.zero_linear_operator import ZeroLinearOperator
 
+from linear_operator.utils.broadcasting import _matmul_broadcast_shape
 from linear_operator.utils.generic import _to_helper
 from linear_operator.utils.getitem import _compute_getitem_size, _is_noop_index
 from linear_operator.utils.memoize import cached
@@ -55,6 +56,7 @@ class IdentityLinearOperator(ConstantDiagLinearOperator):
         return self._device
 
     def _maybe_reshape_rhs(self, rhs: Union[torch.Tensor, LinearOperator]) -> Union[torch.Tensor, LinearOperator]:
+        _matmul_broadcast_shape(self.shape, rhs.shape)  # returning rhs unchanged must not hide a shape mismatch
         if self._batch_shape != rhs.shape[:-2]:
             batch_shape = torch.broadcast_shapes(rhs.shape[:-2], self._batch_shape)
             return rhs.expand(*batch_shape, *rhs.shape[-2:])
@@ -192,6 +194,7 @@ class IdentityLinearOperator(ConstantDiagLinearOperator):
         if inv_quad_rhs is None:
             inv_quad_term = torch.empty(0, dtype=self.dtype, device=self.device)
         else:
+            _matmul_broadcast_shape(self.shape, inv_quad_rhs.shape)
             rhs_batch_shape = inv_quad_rhs.shape[1 + self.batch_dim :]
             inv_quad_term = inv_quad_rhs.mul(inv_quad_rhs).sum(-(1 + len(rhs_batch_shape)))
             if reduce_inv_quad:
